@@ -142,6 +142,7 @@ def message_class(m1: str, m2: str) -> str:
 
 
 async def search(ctx):
+    await recycle_scenarios(ctx)
     r = ctx.rng("pairs")
     n = ctx.budget(500, 12000)
     st = ctx.stats
@@ -189,6 +190,47 @@ async def search(ctx):
             if once == ["ok"] and (twice != ["ok", "ok"] or d1 != d2):
                 ctx.finding(Finding(PID, f"repeat-not-noop:{a[0]}", f"repeating {a} by {ca} is not a no-op",
                                     {"decl": a, "outcomes": twice}))
+
+
+async def recycle_scenarios(ctx):
+    """A step that is re-declared unchanged after its plan reran is subject to the same checks
+    as a fresh declaration: a glob registered in between that matches its output rejects it."""
+    from stepup.core.enums import StepState
+
+    r = ctx.rng("recycle")
+    for i in range(ctx.budget(40, 600)):
+        out = r.choice(["d/a.txt", "e.txt", "d/sub/c.txt"])
+        pats = [p for p in GLOBS if NamedGlob(p)._match_values(out) is not None]
+        if not pats:
+            continue
+        pat = r.choice(pats)
+        on_disk = r.random() < 0.5
+        outcomes = {}
+        for variant in ("fresh", "recycled"):
+            async with implkit.workflow() as wf:
+                async with wf.db:
+                    wf.define_step(wf.root, "boot", need=Need.PLAN)
+                    boot = wf.find(Step, "boot")
+                    if variant == "recycled":
+                        wf.define_step(boot, "work", out_paths=[out])
+                        boot.set_state(StepState.RUNNING)
+                        boot.reset_for_rerun()  # the plan runs again: its steps are detached
+                    ng = NamedGlob(pat)
+                    ng.extend([out] if on_disk else [])
+                    wf.register_nglob(boot, ng)
+                try:
+                    async with wf.db:
+                        wf.define_step(wf.find(Step, "boot"), "work", out_paths=[out])
+                    outcomes[variant] = "ok"
+                except GraphError as exc:
+                    outcomes[variant] = "GraphError: " + str(exc)
+        ctx.stats.case(("recycle", out, pat, on_disk))
+        if (outcomes["fresh"] == "ok") != (outcomes["recycled"] == "ok"):
+            ctx.finding(Finding(PID, "recycle-skips-declaration-check",
+                                f"declaring step 'work' with output {out} after glob({pat}) is "
+                                f"{outcomes['fresh'][:40]!r} for a fresh step and {outcomes['recycled'][:40]!r} when the "
+                                "step is recycled", {"output": out, "pattern": pat, "match_recorded": on_disk,
+                                                     "outcomes": outcomes}))
 
 
 async def replay(ctx, detail):
